@@ -40,10 +40,17 @@ class StepLoop(asyncio.AbstractEventLoop):
             self._running = True
             asyncio._set_running_loop(self)
             try:
-                h._run()
+                # not Handle._run(): on an exception that would repr() the callback arguments (futures holding
+                # symbolic values would be realised) and it would also swallow CrossHair's BaseExceptions
+                try:
+                    h._context.run(h._callback, *h._args)
+                except Exception as exc:  # noqa: BLE001
+                    self.errors.append({'message': 'Exception in callback ' + getattr(h._callback, '__qualname__', '?'),
+                                        'exception': exc})
             finally:
                 asyncio._set_running_loop(None)
                 self._running = False
+
     def run_all(self, limit=1000):
         n = 0
         while self._ready and n < limit:
